@@ -117,15 +117,34 @@ type Jar struct {
 	c []*SetCookie
 }
 
-// Store applies a Set-Cookie line; ill-formed lines are ignored and reported.
+// Store applies a Set-Cookie line received for a request to "/"; see StoreFrom.
 func (j *Jar) Store(line string, now time.Time) (ignored string) {
+	return j.StoreFrom(line, now, "/")
+}
+
+// DefaultPath is the default-path of RFC 6265 section 5.1.4 for a request path.
+func DefaultPath(reqPath string) string {
+	if reqPath == "" || reqPath[0] != '/' {
+		return "/"
+	}
+	i := strings.LastIndexByte(reqPath, '/')
+	if i <= 0 {
+		return "/"
+	}
+	return reqPath[:i]
+}
+
+// StoreFrom applies a Set-Cookie line received in the response to a request for reqPath;
+// ill-formed lines are ignored and reported. A cookie without Path attribute gets the
+// default-path of the request, so it replaces / deletes only a stored cookie with that path.
+func (j *Jar) StoreFrom(line string, now time.Time, reqPath string) (ignored string) {
 	sc, bad := ParseSetCookie(line)
 	if bad != "" {
 		return bad
 	}
 	p := sc.Path
-	if p == "" {
-		p = "/"
+	if p == "" || p[0] != '/' {
+		p = DefaultPath(reqPath)
 	}
 	sc.Path = p
 	for i, o := range j.c {
